@@ -38,63 +38,95 @@ Qed.
 
 (** [send] applied to a representation, with the [sanitize_request] result of the same header,
     is the specification of that representation. *)
+Lemma body_sent_fits status rp :
+  N.of_nat (length (rp_body rp)) <= u64_max -> N.of_nat (length (body_sent status rp)) <= u64_max.
+Proof. intros H. unfold body_sent. destruct (bodyless status); [cbn; lia|exact H]. Qed.
+
 Lemma send_repr_spec checked m status rp hdr range :
   N.of_nat (length (rp_body rp)) <= u64_max -> status <> 304 ->
   sanitize_range hdr = Ok range ->
   send_m checked m (Ok range) (L4Resp status rp) = Ok (wire_spec status m rp hdr).
 Proof.
   intros Hlen Hst Hsd.
-  pose proof (serve_range_spec_st checked hdr status (rp_body rp) Hlen) as Hs.
+  pose proof (serve_range_spec_st checked hdr status (body_sent status rp) (body_sent_fits status rp Hlen)) as Hs.
   unfold serve_range in Hs. rewrite Hsd in Hs. unfold wire_spec. rewrite header_range_denoted.
-  unfold send_m, send_gen. replace (N.eqb status 304) with false by lia. cbn [andb].
-  destruct (apply_range checked range status (rp_body rp)) as [r|e|] eqn:Ha.
+  unfold send_m, send_gen. cbn [rp_body rp_encoding]. replace (N.eqb status 304) with false by lia. cbn [andb].
+  destruct (apply_range checked range status (body_sent status rp)) as [r|e|] eqn:Ha.
   - injection Hs as Hr. rewrite <- Hr. reflexivity.
   - injection Hs as Hr. rewrite <- Hr. reflexivity.
   - discriminate Hs.
 Qed.
 
-(** One step: whatever the cache entry (absent or this page's), the reply is the specification
-    and the entry stays absent or this page's; it is present afterwards exactly when the
-    specification says the server holds the response. *)
+(** An item all of whose variants are this page's: looking a class up finds the page exactly when the
+    item holds the class. *)
+Lemma get_by_request_holds pg it lang :
+  Forall (fun v => snd v = pg) it ->
+  get_by_request it lang = if holds (map fst it) lang then Some pg else None.
+Proof.
+  intros H. induction H as [|[l p] rest Hp Hrest IH]; [reflexivity|].
+  cbn [get_by_request map fst holds existsb]. cbn [snd] in Hp. subst p.
+  rewrite (N.eqb_sym lang l). destruct (N.eqb l lang); [reflexivity|].
+  cbn [orb]. exact IH.
+Qed.
+
+Lemma send_not_modified checked m range :
+  send_gen true checked m (Ok range) (L4Resp 304 no_repr) = Ok not_modified.
+Proof.
+  unfold send_gen. cbn [rp_body rp_encoding andb]. replace (N.eqb 304 304) with true by reflexivity.
+  unfold on_wire, untouched, not_modified, no_repr, body_sent.
+  replace (bodyless 304) with true by reflexivity.
+  cbn [r_status r_content_range r_accept_ranges r_body rp_encoding rp_body length].
+  destruct m; reflexivity.
+Qed.
+
+(** One step: whatever the cache entry (absent or holding variants of this page), the reply is the
+    specification and the entry stays absent or this page's; the classes it holds afterwards are
+    exactly those the specification says the server holds. *)
 Lemma rstep_spec checked caching status pg cache q :
-  page_fits pg -> cache_ok pg cache -> status <> 304 ->
-  fst (rstep checked caching status pg cache q) = Ok (reply_spec status pg (is_stored cache) q) /\
-  cache_ok pg (snd (rstep checked caching status pg cache q)) /\
-  is_stored (snd (rstep checked caching status pg cache q)) = stored_after caching (is_stored cache) q.
+  page_fits pg -> vcache_ok pg cache -> status <> 304 ->
+  fst (rstep checked caching status pg cache q) = Ok (reply_spec status pg (held_by cache) q) /\
+  vcache_ok pg (snd (rstep checked caching status pg cache q)) /\
+  held_by (snd (rstep checked caching status pg cache q)) = stored_after caching (held_by cache) q.
 Proof.
   intros Hf Hc Hst. unfold rstep, rstep_gen, reply_spec, stored_after, answers_304.
   destruct (sanitize_rejected (rq_range q)) as [[Hrej [e Hsd]]|[Hrej [range Hsd]]]; rewrite Hsd, Hrej.
   - (* start > end: the error page, nothing stored *)
-    unfold handle_cache_m. cbn [fst snd send_gen negb andb].
-    rewrite Bool.andb_false_r, Bool.orb_false_r. repeat split; [exact Hc].
+    unfold handle_cache_m. cbn [fst snd send_gen negb].
+    rewrite Bool.andb_false_r. cbn [andb]. repeat split; exact Hc.
   - pose proof (fun m => send_repr_spec checked m status (choose pg (rq_ae q)) (rq_range q) range
                            (choose_fits pg (rq_ae q) Hf) Hst Hsd) as Hsend.
     unfold send_m in Hsend. cbn [negb]. rewrite Bool.andb_true_r.
-    destruct Hc as [->| ->]; unfold handle_cache_m; cbn [is_stored andb orb].
+    destruct cache as [it|]; unfold handle_cache_m; cbn [held_by].
+    + (* an item is stored *)
+      cbn [vcache_ok] in Hc. rewrite (get_by_request_holds pg it (rq_lang q) Hc).
+      destruct (get_or_head (rq_method q)) eqn:Hm.
+      * destruct (holds (map fst it) (rq_lang q)) eqn:Hh; cbn [andb negb].
+        -- (* ... which holds the variant *)
+           rewrite Bool.andb_false_r, Bool.andb_true_r.
+           destruct (fresh q) eqn:Hfr; cbn [fst snd held_by vcache_ok].
+           ++ split; [apply send_not_modified|split; [exact Hc|reflexivity]].
+           ++ split; [apply Hsend|split; [exact Hc|reflexivity]].
+        -- (* ... but not this variant: the handler runs, the variant joins the item *)
+           rewrite Bool.andb_false_r, Bool.andb_true_r. cbn [fst snd]. split; [apply Hsend|].
+           destruct caching; cbn [held_by vcache_ok andb].
+           ++ split; [|apply map_app]. apply Forall_app. split; [exact Hc|]. constructor; [reflexivity|constructor].
+           ++ split; [exact Hc|reflexivity].
+      * cbn [fst snd]. split; [rewrite Bool.andb_false_r; apply Hsend|].
+        rewrite !Bool.andb_false_r. cbn [andb held_by vcache_ok]. split; [exact Hc|reflexivity].
     + (* nothing stored: the handler runs *)
-      cbn [fst snd]. split; [apply Hsend|].
-      destruct caching, (get_or_head (rq_method q)); cbn [andb is_stored];
-        (split; [first [left; reflexivity|right; reflexivity]|reflexivity]).
-    + (* this page is stored *)
-      destruct (get_or_head (rq_method q)) eqn:Hm; cbn [andb].
-      * destruct (fresh q) eqn:Hfr; cbn [fst snd is_stored].
-        -- split; [|split; [right; reflexivity|reflexivity]].
-           unfold send_gen. cbn [andb]. replace (N.eqb 304 304) with true by reflexivity.
-           unfold on_wire, untouched, not_modified, no_repr.
-           cbn [r_status r_content_range r_accept_ranges r_body rp_encoding rp_body length].
-           destruct (rq_method q); reflexivity.
-        -- split; [apply Hsend|split; [right; reflexivity|reflexivity]].
-      * cbn [fst snd]. split; [apply Hsend|].
-        rewrite Bool.andb_false_r. cbn [is_stored]. split; [right; reflexivity|reflexivity].
+      cbn [fst snd holds existsb andb negb map]. split; [apply Hsend|].
+      rewrite Bool.andb_true_r.
+      destruct caching, (get_or_head (rq_method q)); cbn [andb held_by vcache_ok map fst app];
+        (split; [first [exact I|repeat constructor]|reflexivity]).
 Qed.
 
-Lemma reply_spec_unconditional status pg stored q :
-  fresh q = false -> reply_spec status pg stored q = reply_spec status pg false q.
+Lemma reply_spec_unconditional status pg held q :
+  fresh q = false -> reply_spec status pg held q = reply_spec status pg [] q.
 Proof.
-  intros H. unfold reply_spec, answers_304. rewrite H. rewrite Bool.andb_false_r. reflexivity.
+  intros H. unfold reply_spec, answers_304. rewrite H. rewrite !Bool.andb_false_r. reflexivity.
 Qed.
 
-(** The special case used by C02 (Model/Panics.v). *)
+(** The special case used by C02 (Model/Panics.v): a page without vary rules. *)
 Lemma conn_step_spec checked caching pg cache q :
   page_fits pg -> cache_ok pg cache ->
   fst (conn_step checked caching pg cache q) = Ok (reply_spec_200 pg q) /\
@@ -102,14 +134,19 @@ Lemma conn_step_spec checked caching pg cache q :
 Proof.
   intros Hf Hc. unfold conn_step, reply_spec_200.
   assert (Hst : 200 <> 304) by discriminate.
-  destruct (rstep_spec checked caching 200 pg cache (lift_creq q) Hf Hc Hst) as [H1 [H2 _]].
-  split; [|exact H2]. rewrite H1.
-  rewrite (reply_spec_unconditional 200 pg (is_stored cache) (lift_creq q)) by reflexivity. reflexivity.
+  assert (Hv : vcache_ok pg (option_map item_of cache)).
+  { destruct Hc as [->| ->]; cbn [option_map vcache_ok item_of]; [exact I|repeat constructor]. }
+  destruct (rstep_spec checked caching 200 pg (option_map item_of cache) (lift_creq q) Hf Hv Hst) as [H1 [H2 _]].
+  destruct (rstep checked caching 200 pg (option_map item_of cache) (lift_creq q)) as [o cache'].
+  cbn [fst snd] in *. split.
+  - rewrite H1. f_equal. apply reply_spec_unconditional. reflexivity.
+  - destruct cache' as [[|[l p] rest]|]; cbn [page_of]; [left; reflexivity| |left; reflexivity].
+    cbn [vcache_ok] in H2. inversion H2 as [|? ? Hp ?]. cbn [snd] in Hp. subst p. right. reflexivity.
 Qed.
 
 Lemma serve_history_spec checked caching status pg cache reqs :
-  page_fits pg -> cache_ok pg cache -> status <> 304 ->
-  serve_history checked caching status pg cache reqs = Ok (history_spec caching status pg (is_stored cache) reqs).
+  page_fits pg -> vcache_ok pg cache -> status <> 304 ->
+  serve_history checked caching status pg cache reqs = Ok (history_spec caching status pg (held_by cache) reqs).
 Proof.
   intros Hf Hc Hst. revert cache Hc. induction reqs as [|q rest IH]; intros cache Hc; [reflexivity|].
   cbn [serve_history history_spec].
@@ -136,13 +173,13 @@ Lemma reply_after_spec checked caching status pg pre q :
   reply_after checked caching status pg pre q = Ok (reply_spec status pg (stored_by caching pre) q).
 Proof.
   intros Hf Hst. unfold reply_after.
-  rewrite (serve_history_spec checked caching status pg None (pre ++ [q]) Hf) by (first [left; reflexivity|assumption]).
-  cbn [obind is_stored]. rewrite history_spec_app. rewrite last_last. reflexivity.
+  rewrite (serve_history_spec checked caching status pg None (pre ++ [q]) Hf) by (first [exact I|assumption]).
+  cbn [obind held_by]. rewrite history_spec_app. rewrite last_last. reflexivity.
 Qed.
 
 Lemma reply_after_independent checked caching status pg pre q :
   page_fits pg -> status <> 304 -> fresh q = false ->
-  reply_after checked caching status pg pre q = Ok (reply_spec status pg false q).
+  reply_after checked caching status pg pre q = Ok (reply_spec status pg [] q).
 Proof.
   intros Hf Hst Hfr. rewrite reply_after_spec by assumption.
   rewrite reply_spec_unconditional by assumption. reflexivity.
@@ -151,42 +188,43 @@ Qed.
 (** HEAD: the GET reply's status and headers, no body — in every cache state. *)
 Lemma wire_spec_head status rp hdr : wire_spec status HEAD rp hdr = strip_body (wire_spec status GET rp hdr).
 Proof.
-  unfold wire_spec. destruct (range_spec_st status (header_range hdr) (rp_body rp)); reflexivity.
+  unfold wire_spec. destruct (range_spec_st status (header_range hdr) (body_sent status rp)); reflexivity.
 Qed.
 
-Lemma head_as_get checked caching status pg cache ae hdrs ims :
-  page_fits pg -> cache_ok pg cache -> status <> 304 ->
-  fst (rstep checked caching status pg cache {| rq_method := HEAD; rq_ae := ae; rq_ranges := hdrs; rq_ims := ims |})
+Lemma head_as_get checked caching status pg cache ae hdrs ims lang :
+  page_fits pg -> vcache_ok pg cache -> status <> 304 ->
+  fst (rstep checked caching status pg cache {| rq_method := HEAD; rq_ae := ae; rq_ranges := hdrs; rq_ims := ims; rq_lang := lang |})
   = omap strip_body
-      (fst (rstep checked caching status pg cache {| rq_method := GET; rq_ae := ae; rq_ranges := hdrs; rq_ims := ims |})).
+      (fst (rstep checked caching status pg cache {| rq_method := GET; rq_ae := ae; rq_ranges := hdrs; rq_ims := ims; rq_lang := lang |})).
 Proof.
   intros Hf Hc Hst.
-  destruct (rstep_spec checked caching status pg cache {| rq_method := HEAD; rq_ae := ae; rq_ranges := hdrs; rq_ims := ims |} Hf Hc Hst) as [H1 _].
-  destruct (rstep_spec checked caching status pg cache {| rq_method := GET; rq_ae := ae; rq_ranges := hdrs; rq_ims := ims |} Hf Hc Hst) as [H2 _].
-  rewrite H1, H2. cbn [omap]. unfold reply_spec, answers_304, rq_range, fresh. cbn [rq_method rq_ae rq_ranges rq_ims get_or_head].
+  destruct (rstep_spec checked caching status pg cache {| rq_method := HEAD; rq_ae := ae; rq_ranges := hdrs; rq_ims := ims; rq_lang := lang |} Hf Hc Hst) as [H1 _].
+  destruct (rstep_spec checked caching status pg cache {| rq_method := GET; rq_ae := ae; rq_ranges := hdrs; rq_ims := ims; rq_lang := lang |} Hf Hc Hst) as [H2 _].
+  rewrite H1, H2. cbn [omap]. unfold reply_spec, answers_304, rq_range, fresh. cbn [rq_method rq_ae rq_ranges rq_ims rq_lang get_or_head].
   destruct (rejected (hd_error (rev hdrs))); [reflexivity|].
-  destruct (is_stored cache && true && (ims =? 1)); [reflexivity|].
+  destruct (holds (held_by cache) lang && true && (ims =? 1)); [reflexivity|].
   rewrite wire_spec_head. reflexivity.
 Qed.
 
 (** A ranged reply is a slice of the un-ranged reply of the same Accept-Encoding class:
     206 body = bytes a..=min(b,len-1) of the 200 body, and the encoding header is the same. *)
-Lemma rq_range_last m ae more v ims :
-  rq_range {| rq_method := m; rq_ae := ae; rq_ranges := more ++ [v]; rq_ims := ims |} = Some v.
+Lemma rq_range_last m ae more v ims lang :
+  rq_range {| rq_method := m; rq_ae := ae; rq_ranges := more ++ [v]; rq_ims := ims; rq_lang := lang |} = Some v.
 Proof. unfold rq_range. cbn [rq_ranges]. rewrite rev_app_distr. reflexivity. Qed.
 
-Lemma ranged_is_slice_of_unranged pg ae v more a c :
+Lemma ranged_is_slice_of_unranged pg ae lang v more a c :
   parse_range v = Some (a, c) -> a <= c -> a < N.of_nat (length (rp_body (choose pg ae))) ->
   exists full part,
-    reply_spec 200 pg false {| rq_method := GET; rq_ae := ae; rq_ranges := []; rq_ims := 0 |} = WResp full /\
-    reply_spec 200 pg false {| rq_method := GET; rq_ae := ae; rq_ranges := more ++ [v]; rq_ims := 0 |} = WResp part /\
+    reply_spec 200 pg [] {| rq_method := GET; rq_ae := ae; rq_ranges := []; rq_ims := 0; rq_lang := lang |} = WResp full /\
+    reply_spec 200 pg [] {| rq_method := GET; rq_ae := ae; rq_ranges := more ++ [v]; rq_ims := 0; rq_lang := lang |} = WResp part /\
     w_status full = 200 /\ w_status part = 206 /\
     w_content_encoding part = w_content_encoding full /\
     w_body part = firstn (N.to_nat (N.min c (w_content_length full - 1) - a + 1)) (skipn (N.to_nat a) (w_body full)) /\
     w_content_length part = N.of_nat (length (w_body part)).
 Proof.
   intros Hp Hac Hlen. unfold reply_spec, answers_304, wire_spec, rejected. rewrite rq_range_last.
-  unfold rq_range. cbn [rq_method rq_ae rq_ranges rq_ims header_range hd_error rev app andb].
+  unfold rq_range, body_sent. replace (bodyless 200) with false by reflexivity.
+  cbn [rq_method rq_ae rq_ranges rq_ims rq_lang header_range hd_error rev app andb holds existsb].
   rewrite Hp. replace (c <? a) with false by lia.
   unfold range_spec_st, range_spec.
   replace (a <=? c) with true by lia. replace (a <? N.of_nat (length (rp_body (choose pg ae)))) with true by lia.
@@ -196,9 +234,9 @@ Proof.
 Qed.
 
 (** Only the last [Range] line of a request is looked at. *)
-Lemma last_range_line checked caching status pg cache m ae v more ims :
-  rstep checked caching status pg cache {| rq_method := m; rq_ae := ae; rq_ranges := more ++ [v]; rq_ims := ims |}
-  = rstep checked caching status pg cache {| rq_method := m; rq_ae := ae; rq_ranges := [v]; rq_ims := ims |}.
+Lemma last_range_line checked caching status pg cache m ae v more ims lang :
+  rstep checked caching status pg cache {| rq_method := m; rq_ae := ae; rq_ranges := more ++ [v]; rq_ims := ims; rq_lang := lang |}
+  = rstep checked caching status pg cache {| rq_method := m; rq_ae := ae; rq_ranges := [v]; rq_ims := ims; rq_lang := lang |}.
 Proof.
   unfold rstep, rstep_gen. rewrite rq_range_last. reflexivity.
 Qed.
@@ -218,7 +256,7 @@ Lemma unranged_not_rejected q : rejected (rq_range (unranged q)) = false.
 Proof. reflexivity. Qed.
 
 Lemma ranged_of_unranged checked caching status pg cache q :
-  page_fits pg -> cache_ok pg cache -> status <> 304 -> rq_method q <> HEAD ->
+  page_fits pg -> vcache_ok pg cache -> status <> 304 -> rq_method q <> HEAD ->
   fst (rstep checked caching status pg cache q)
   = omap (ranged_of (rq_range q)) (fst (rstep checked caching status pg cache (unranged q))).
 Proof.
@@ -228,35 +266,49 @@ Proof.
   rewrite H1, H2. cbn [omap]. f_equal.
   unfold reply_spec, ranged_of. rewrite unranged_not_rejected.
   destruct (rejected (rq_range q)) eqn:Hrej; [reflexivity|].
-  replace (answers_304 (is_stored cache) (unranged q)) with (answers_304 (is_stored cache) q) by reflexivity.
-  destruct (answers_304 (is_stored cache) q); [reflexivity|].
+  replace (answers_304 (held_by cache) (unranged q)) with (answers_304 (held_by cache) q) by reflexivity.
+  destruct (answers_304 (held_by cache) q); [reflexivity|].
   unfold wire_spec. cbn [unranged rq_range rq_ranges hd_error header_range rq_method rq_ae].
-  set (rp := choose pg (rq_ae q)).
+  set (rp := choose pg (rq_ae q)). set (bd := body_sent status rp).
   (* the un-ranged reply: status [status], the whole representation *)
   rewrite range_spec_st_none.
   cbn [wire_of r_status r_content_range r_accept_ranges r_body w_status w_body w_content_encoding].
   replace (N.eqb status 304) with false by lia.
-  assert (Hb : (match rq_method q with HEAD => [] | _ => rp_body rp end) = rp_body rp).
+  assert (Hb : (match rq_method q with HEAD => [] | _ => bd end) = bd).
   { destruct (rq_method q); [reflexivity|contradiction|reflexivity]. }
   rewrite Hb.
-  destruct (range_spec_st status (header_range (rq_range q)) (rp_body rp)) as [|r]; [reflexivity|].
+  destruct (range_spec_st status (header_range (rq_range q)) bd) as [|r]; [reflexivity|].
   cbn [wire_of]. destruct (rq_method q); [reflexivity|contradiction|reflexivity].
 Qed.
 
-(** Conditional requests: when the server holds the response and the client's copy is fresh, a
-    GET/HEAD with a Range header that is not refused is answered 304 — as without the header. *)
-Lemma conditional_304 checked caching status pg q :
-  page_fits pg -> status <> 304 -> get_or_head (rq_method q) = true -> fresh q = true ->
+(** Conditional requests: when the server holds the response the request selects and the client's copy is
+    fresh, a GET/HEAD with a Range header that is not refused is answered 304 — as without the header. *)
+Lemma conditional_304 checked caching status pg it q :
+  page_fits pg -> vcache_ok pg (Some it) -> holds (map fst it) (rq_lang q) = true ->
+  status <> 304 -> get_or_head (rq_method q) = true -> fresh q = true ->
   rejected (rq_range q) = false ->
-  fst (rstep checked caching status pg (Some pg) q) = Ok not_modified /\
-  fst (rstep checked caching status pg (Some pg) (unranged q)) = Ok not_modified.
+  fst (rstep checked caching status pg (Some it) q) = Ok not_modified /\
+  fst (rstep checked caching status pg (Some it) (unranged q)) = Ok not_modified.
 Proof.
-  intros Hf Hst Hm Hfr Hrej.
-  destruct (rstep_spec checked caching status pg (Some pg) q Hf (or_intror eq_refl) Hst) as [H1 _].
-  destruct (rstep_spec checked caching status pg (Some pg) (unranged q) Hf (or_intror eq_refl) Hst) as [H2 _].
+  intros Hf Hc Hh Hst Hm Hfr Hrej.
+  destruct (rstep_spec checked caching status pg (Some it) q Hf Hc Hst) as [H1 _].
+  destruct (rstep_spec checked caching status pg (Some it) (unranged q) Hf Hc Hst) as [H2 _].
   rewrite H1, H2. unfold reply_spec. rewrite Hrej, unranged_not_rejected.
-  replace (answers_304 (is_stored (Some pg)) (unranged q)) with (answers_304 (is_stored (Some pg)) q) by reflexivity.
-  unfold answers_304. rewrite Hm, Hfr. split; reflexivity.
+  replace (answers_304 (held_by (Some it)) (unranged q)) with (answers_304 (held_by (Some it)) q) by reflexivity.
+  unfold answers_304. cbn [held_by]. rewrite Hh, Hm, Hfr. split; reflexivity.
+Qed.
+
+(** ... and when the item holds other variants of the page but not the one the request selects, the same
+    request is answered like one that is not conditional: the server vouches only for what it holds. *)
+Lemma conditional_other_variant checked caching status pg it q :
+  page_fits pg -> vcache_ok pg (Some it) -> holds (map fst it) (rq_lang q) = false ->
+  status <> 304 -> rejected (rq_range q) = false ->
+  fst (rstep checked caching status pg (Some it) q)
+  = Ok (wire_spec status (rq_method q) (choose pg (rq_ae q)) (rq_range q)).
+Proof.
+  intros Hf Hc Hh Hst Hrej.
+  destruct (rstep_spec checked caching status pg (Some it) q Hf Hc Hst) as [H1 _].
+  rewrite H1. unfold reply_spec, answers_304. cbn [held_by]. rewrite Hrej, Hh. reflexivity.
 Qed.
 
 (** kvarn 0.6.3 answered such a request 416 ("Range start after end of body": the range was applied to
@@ -266,8 +318,8 @@ Proof. repeat constructor; vm_compute; discriminate. Qed.
 
 Lemma conditional_063_refuted :
   exists pg q, page_fits pg /\ get_or_head (rq_method q) = true /\ fresh q = true /\ rejected (rq_range q) = false /\
-    fst (rstep_063 true true 200 pg (Some pg) (unranged q)) = Ok not_modified /\
-    fst (rstep_063 true true 200 pg (Some pg) q) = Ok W416.
+    fst (rstep_063 true true 200 pg (Some [(rq_lang q, pg)]) (unranged q)) = Ok not_modified /\
+    fst (rstep_063 true true 200 pg (Some [(rq_lang q, pg)]) q) = Ok W416.
 Proof.
   exists ex_page, ex_conditional. split; [exact ex_page_fits|]. vm_compute. repeat split; reflexivity.
 Qed.
@@ -278,6 +330,9 @@ Lemma stream_step_spec checked file q :
   stream_step true checked file q = Ok (stream_spec file q).
 Proof.
   intros Hlen. unfold stream_step, stream_spec.
+  set (hd := match rq_method q with HEAD => true | _ => false end).
+  assert (Hbody : forall b : bytes, (match rq_method q with HEAD => [] | _ => b end) = if hd then [] else b).
+  { intros b. unfold hd. destruct (rq_method q); reflexivity. }
   destruct (sanitize_rejected (rq_range q)) as [[Hrej [e Hsd]]|[Hrej [range Hsd]]]; rewrite Hsd.
   - pose proof (rejected_spec_416 200 (rq_range q) file Hrej) as H. rewrite range_spec_st_200 in H. rewrite H. reflexivity.
   - unfold rejected in Hrej. unfold sanitize_range in Hsd. unfold header_range in *.
@@ -291,7 +346,7 @@ Proof.
         cbn [skipn N.to_nat]. replace (N.to_nat 0) with 0%nat by reflexivity. cbn [skipn].
         replace (N.to_nat (N.of_nat (length file))) with (length file) by lia.
         rewrite firstn_all. replace (N.of_nat (length file) <? N.of_nat (length file)) with false by lia.
-        cbn [r_status r_content_range r_body]. rewrite firstn_all. reflexivity. }
+        cbn [r_status r_content_range r_body]. rewrite firstn_all. rewrite Hbody. destruct hd; reflexivity. }
     destruct (parse_range v) as [[a c]|] eqn:Hp.
     2:{ injection Hsd as <-. unfold stream_prepare, range_spec. cbn [andb].
         unfold sub_u64. replace (0 <=? N.min (N.of_nat (length file)) (N.of_nat (length file))) with true by lia.
@@ -302,7 +357,7 @@ Proof.
         replace (N.to_nat 0) with 0%nat by reflexivity. cbn [skipn].
         replace (N.to_nat (N.of_nat (length file))) with (length file) by lia.
         rewrite firstn_all. replace (N.of_nat (length file) <? N.of_nat (length file)) with false by lia.
-        cbn [r_status r_content_range r_body]. rewrite firstn_all. reflexivity. }
+        cbn [r_status r_content_range r_body]. rewrite firstn_all. rewrite Hbody. destruct hd; reflexivity. }
     apply parse_range_bounds in Hp as [Ha Hc].
     replace (c <? a) with false in Hsd by lia. injection Hsd as <-.
     unfold stream_prepare, range_spec. cbn [andb].
@@ -325,8 +380,8 @@ Proof.
       { unfold sl. rewrite firstn_length, skipn_length. lia. }
       replace (N.of_nat (length sl) <? N.min c (len - 1) - a + 1) with false by lia.
       cbn [r_status r_content_range r_body].
-      rewrite Hsl.
-      replace (firstn (N.to_nat (N.min c (len - 1) - a + 1)) sl) with sl; [reflexivity|].
+      rewrite Hsl. rewrite Hbody.
+      replace (firstn (N.to_nat (N.min c (len - 1) - a + 1)) sl) with sl; [destruct hd; reflexivity|].
       symmetry. replace (N.to_nat (N.min c (len - 1) - a + 1)) with (length sl) by lia. apply firstn_all.
 Qed.
 
@@ -381,15 +436,16 @@ Proof.
     intros r [H1 H2]. split; [exact H1|lia].
 Qed.
 
-Lemma tiling_history_bodies caching pg stored ae l :
+Lemma tiling_history_bodies caching pg stored ae lang l :
   Forall (fun r => fst r <= snd r /\ snd r <= u64_max) l ->
-  map wbody (history_spec caching 200 pg stored (map (get_range ae) l))
+  map wbody (history_spec caching 200 pg stored (map (get_range ae lang) l))
   = map (fun r => reply_body (range_spec (Some r) (rp_body (choose pg ae)))) l.
 Proof.
   intros Hl. revert stored. induction Hl as [|r rest [Hr1 Hr2] Hrest IH]; intros stored; [reflexivity|].
   cbn [map history_spec]. rewrite IH. f_equal.
-  unfold reply_spec, answers_304, rejected, fresh, wire_spec, rq_range, get_range.
-  cbn [rq_method rq_ae rq_ranges rq_ims rev app hd_error header_range].
+  unfold reply_spec, answers_304, rejected, fresh, wire_spec, rq_range, get_range, body_sent.
+  replace (bodyless 200) with false by reflexivity.
+  cbn [rq_method rq_ae rq_ranges rq_ims rq_lang rev app hd_error header_range].
   rewrite range_header_parses by lia. destruct r as [a c]. cbn [fst snd] in *.
   replace (c <? a) with false by lia.
   replace (0 =? 1) with false by reflexivity. rewrite Bool.andb_false_r.
@@ -397,11 +453,11 @@ Proof.
   destruct (range_spec (Some (a, c)) (rp_body (choose pg ae))) as [|g]; reflexivity.
 Qed.
 
-Lemma conn_tiling checked caching pg cache ae ws :
-  page_fits pg -> cache_ok pg cache ->
+Lemma conn_tiling checked caching pg cache ae lang ws :
+  page_fits pg -> vcache_ok pg cache ->
   Forall (fun w => 0 < w) ws -> sumN ws = N.of_nat (length (rp_body (choose pg ae))) ->
   exists replies,
-    serve_history checked caching 200 pg cache (map (get_range ae) (tile_ranges 0 ws)) = Ok replies /\
+    serve_history checked caching 200 pg cache (map (get_range ae lang) (tile_ranges 0 ws)) = Ok replies /\
     concat (map wbody replies) = rp_body (choose pg ae).
 Proof.
   intros Hf Hc Hw Hsum. eexists. split.
